@@ -21,22 +21,6 @@ Proof. exact (fun h => h). Qed.
 Lemma csim_unfold x y : csim x y -> same_queues_and_events x y.
 Proof. intros [A B C _ _]. unfold same_queues_and_events. auto. Qed.
 
-(* the sources of selected transitions are active (no condition on the chart) *)
-Lemma cselect_src c cfg ev ts : forall sel,
-  (forall ti, In ti sel -> In (ft_source (tr c ti)) cfg) ->
-  forall ti, In ti (cselect c cfg ev ts sel) -> In (ft_source (tr c ti)) cfg.
-Proof.
-  induction ts as [|t r IH]; intros sel Hs; cbn [cselect]; [exact Hs|].
-  destruct (ft_history (tr c t) || ft_initial (tr c t)); [now apply IH|].
-  destruct (mem (ft_source (tr c t)) cfg) eqn:M; cbn [negb]; [|now apply IH].
-  assert (Hs' : forall ti, In ti (sel ++ [t]) -> In (ft_source (tr c ti)) cfg).
-  { intros ti Hi. apply in_app_or in Hi as [Hi|[<-|[]]]; [now apply Hs|]. now apply SetLemmas.mem_In. }
-  destruct (existsb _ sel); [now apply IH|].
-  destruct (match ev with Some _ => ft_spontaneous (tr c t) | None => negb (ft_spontaneous (tr c t)) end); [now apply IH|].
-  destruct (match ev with Some e => negb (name_match_impl nm_fixed (ft_event (tr c t)) e) | None => false end); [now apply IH|].
-  destruct (ft_cond (tr c t)) as [cnd|]; [destruct (c_is_true _ cnd)|]; now apply IH.
-Qed.
-
 (* ---- ESTABLISH_ENTRY_SET, statically ---- *)
 Lemma cstep_equiv_entry_set_lemma cv c cfg evn hist :
   wf_coreb c = true -> LegalCfg c cfg ->
@@ -67,7 +51,7 @@ Lemma cstep_equiv_exit_take_enter_lemma cv xv c :
     same_machine_state (fst r1) (fst r2) /\ csim (snd r1) (snd r2).
 Proof.
   intros Ht H Hc lc lf x y tg ex sel ini L R Hr He. cbv zeta.
-  destruct (microstep_sim cv xv c Ht H Hc lc lf x y tg ex sel ini L R Hr He) as (A & B & _). auto.
+  destruct (microstep_sim cv xv c Ht (core_anc_sorted c H) (core_anc_bounded c H) Hc lc lf x y tg ex sel ini L R Hr He) as (A & B & _). auto.
 Qed.
 
 (* ---- one call that takes transitions ---- *)
@@ -82,7 +66,7 @@ Lemma cstep_microstep_equiv_lemma cv xv c :
     snd r1 = C_ERR_OK /\ snd r2 = RC_MICROSTEPPED.
 Proof.
   intros Ht H Hc lc lf x y ev L R Hl Hne. cbv zeta.
-  destruct (cfire_sim cv xv c Ht H Hc lc lf x y ev L R Hl Hne) as (A & B & C & D & _). auto.
+  exact (cfire_core cv xv c Ht H Hc lc lf x y ev L R Hl Hne).
 Qed.
 
 (* ---- the first call ---- *)
@@ -94,10 +78,12 @@ Lemma cstep_initial_equiv_lemma cv xv c :
   snd r1 = C_ERR_OK /\ snd r2 = RC_MICROSTEPPED.
 Proof.
   intros Ht H Hr Hc. cbv zeta.
-  destruct (cinitial_sim cv xv c Ht H Hr Hc l_pristine l_pristine cx_init x_init) as (A & B & _).
+  destruct (cinitial_sim cv xv c Ht (core_anc_sorted c H) (core_anc_bounded c H) Hc (core_entry0 cv c H Hr)
+              l_pristine l_pristine cx_init x_init) as (A & B & _).
   - unfold lsame. auto.
   - constructor; cbn; auto.
   - reflexivity.
+  - apply HistOK_nil.
   - unfold cgen_step, fast_step. cbn [l_pristine l_fin l_tlf is_pristine l_spont l_init l_stable orb negb].
     destruct (cmicrostep cv c l_pristine cx_init _ [] [] true) as [l1 x1].
     destruct (fmicrostep xv c l_pristine (emit TMsB x_init) _ [] [] true) as [l2 y2]. cbn [fst snd] in *. auto.
